@@ -111,5 +111,6 @@ pub fn property() -> Property {
             direct: None,
         }],
         assumptions: &["inputs in the open taiko gradual classes (known_findings.json) are steered away by construction and counted as excluded_known"],
+        enumerate: None,
     }
 }
